@@ -17,6 +17,22 @@ PROPS = {
     "C02": dict(prop_file="props/C02.v", generators=ENG, module="harness.p_dyn",
                 slice="Blocks.v trees vs NumPy step and CasADi functions (the values the balance is about)",
                 trusted=DYN_TRUST + ["C02 is stated on Spec.v values; C01 (proved) identifies them with the model's outputs"]),
+    "C03": dict(prop_file="props/C03.v", generators=ENG, module="harness.p_dyn",
+                slice="Blocks.v trees (np, cs) vs NumPy/SX/MX; ToFunction.v arguments+result trees vs the compiled function",
+                trusted=DYN_TRUST + ["Paramcoq only produces the term network_step_R; it is type-checked by the kernel",
+                                     "ToFunction.v (hand-written model of to_function; tied by the compile correspondence)",
+                                     "one symbolic type in the model: SX vs MX agreement is dynamic only"]),
+    "C04": dict(prop_file="props/C04.v", generators=ENG, module="harness.p_dyn",
+                slice="ToFunction.v arguments (names, symbols) + result trees vs F.name_in/out, sizes, numeric values",
+                trusted=DYN_TRUST + ["ToFunction.v (hand-written model of to_function; tied by the compile correspondence)",
+                                     "PARTIAL: the positional-successor clause is checked dynamically, not stated in Coq"]),
+    "C05": dict(prop_file="props/C05.v", generators=ENG, module="harness.p_dyn",
+                slice="ToFunction.v (more_out) result trees vs the compiled function",
+                trusted=["no axioms (Print Assumptions: closed under the global context)",
+                         "Blocks.v / ToFunction.v as models of the Python code (tied by the correspondence)"]),
+    "C16": dict(prop_file="props/C16.v", generators=ENG, module="harness.p_dyn",
+                slice="ToFunction.v with declared parameters vs the compiled function",
+                trusted=DYN_TRUST + ["ToFunction.v (hand-written; tied by the compile correspondence)"]),
     "C10": dict(prop_file="props/C10.v", generators=ENG, module="harness.p_dyn",
                 slice="Blocks.v trees vs CasADi functions; Jacobian sparsity vs variable sets of the Spec trees",
                 trusted=DYN_TRUST + ["C10 is stated on Spec.v values; C01 identifies them with the model's outputs"]),
